@@ -302,8 +302,31 @@ def rule_01_9(rep, fx):
             vals.append(og._rvalue(st['rv'], bb, si, 0))
     ok_ts = any(term_has(v, lambda x: x[0] == 'field' and x[1] == 'timestamp' and term_has(x, lambda y: y[0] == 'variant' and y[1] == 'InfoTimestamp')) for v in vals) and \
         all(term_has(v, lambda x: x[0] == 'field' and x[1] == 'timestamp') or (v[0] == 'agg' and str(v[1]).endswith('Option::None')) for v in vals)
+    # ... unconditionally inside the InfoTimestamp arm
+    Ph = Pos(hi)
+    arm = [(s_, t_) for s_, t_, cond, lab in switch_edges(hi, fx, og) if lab == 'InfoTimestamp']
+    ts_stores = [(bb, si) for n, bb, si in writers.get(hi.key, []) if n == 'source_timestamp']
+    for s_, t_ in arm:
+        for r in hi.return_blocks():
+            if Ph.can_reach((t_, 0), (r, 'term'), avoid_pos=ts_stores):
+                ok_ts = False
+    ok_ts = ok_ts and bool(arm)
     rep.check(ok_ts, 'R01.9', 'handle_interpreter_submessage/info-ts', 'source_timestamp := InfoTimestamp.timestamp (None when invalidated)',
               'the INFO_TS handler does not store the submessage\'s own timestamp option (%s)' % [term_str(v)[:50] for v in vals], hi.where())
+    # reset() clears both on every path
+    rs = fx.find(MR + '::reset')
+    rep.analysed(rs)
+    ogr = Origins(rs)
+    Pr = Pos(rs)
+    cleared = {}
+    for n, bb, si in writers.get(rs.key, []):
+        v = ogr._rvalue(rs.blocks[bb]['st'][si]['rv'], bb, si, 0)
+        good = (n == 'source_timestamp' and v[0] == 'agg' and str(v[1]).endswith('Option::None')) or (n == 'source_guid_prefix' and 'UNKNOWN' in str(v))
+        if good and all(Pr.every_path_passes(None, (r, 'term'), via_pos=[(bb, si)], from_entry=True) for r in rs.return_blocks()):
+            cleared[n] = True
+    rep.check(cleared == {'source_timestamp': True, 'source_guid_prefix': True}, 'R01.9', 'reset/clears', 'reset(): source_timestamp := None, source_guid_prefix := UNKNOWN',
+              'MessageReceiver::reset does not clear %s: a sample in a later datagram without INFO_TS inherits the timestamp (or source) of an earlier datagram' % sorted(
+                  {'source_timestamp', 'source_guid_prefix'} - set(cleared)), rs.where())
     # every packet passes reset() before any submessage is handled
     hp = fx.find(MR + '::handle_received_packet')
     pm = fx.find(MR + '::handle_parsed_message')
